@@ -162,40 +162,96 @@ def build_source(case):
     return '<root xmlns:py="%s"%s>%s</root>' % (PY_NS, xi, body), frags
 
 
-def render_real(case, method='events'):
-    """render the case with the staged genshi; returns the canonical outcome"""
+def _make_template(case):
+    """-> (MarkupTemplate object, data factory) for the case"""
     from genshi.template import MarkupTemplate
     from genshi.input import XML
     from genshi.core import Stream
     src, frags = build_source(case)
-    try:
-        files = dict((n, x) for n, x in frags if n.endswith('.xml'))
-        if files:
-            # included markup: an in-memory loader, in the mode the case asks for
-            from genshi.template import TemplateLoader
-            from io import StringIO
+    files = dict((n, x) for n, x in frags if n.endswith('.xml'))
+    if files:
+        # included markup: an in-memory loader, in the mode the case asks for
+        from genshi.template import TemplateLoader
+        from io import StringIO
 
-            def memload(filename):
-                if filename not in files:
-                    raise IOError(filename)
-                return filename, filename, StringIO(files[filename]), (lambda: True)
-            loader = TemplateLoader([memload], auto_reload=bool(case.get('auto_reload', False)))
-            tmpl = MarkupTemplate(src, loader=loader)
-        else:
-            tmpl = MarkupTemplate(src)
-        data = {}
+        def memload(filename):
+            if filename not in files:
+                raise IOError(filename)
+            return filename, filename, StringIO(files[filename]), (lambda: True)
+        loader = TemplateLoader([memload], auto_reload=bool(case.get('auto_reload', False)))
+        tmpl = MarkupTemplate(src, loader=loader)
+    else:
+        tmpl = MarkupTemplate(src)
+
+    def data():
+        d = {}
         for name, xml in frags:
             if name.endswith('.xml'):
                 continue
             # a fresh list-backed stream per render (generated markup)
-            data[name] = Stream(list(XML('<f>%s</f>' % xml))[1:-1])
-        stream = tmpl.generate(**data)
-        if method == 'events':
-            from harness import evwire
-            return ['ok', evwire.stream(stream)]
-        return ['ok', stream.render('xml', encoding=None)]
+            d[name] = Stream(list(XML('<f>%s</f>' % xml))[1:-1])
+        return d
+    return tmpl, data
+
+
+def _finish(stream, method):
+    if method == 'events':
+        from harness import evwire
+        return ['ok', evwire.stream(stream)]
+    return ['ok', stream.render('xml', encoding=None)]
+
+
+def render_real(case, method='events'):
+    """render the case with the staged genshi; returns the canonical outcome"""
+    try:
+        tmpl, data = _make_template(case)
+        return _finish(tmpl.generate(**data()), method)
     except Exception as e:  # noqa
         return ['err', type(e).__name__]
+
+
+def render_many(case, mode='twice', method='xml'):
+    """several renderings of ONE template object (a template is parsed once and rendered per request):
+    mode 'twice'       -> three renderings one after the other
+    mode 'interleaved' -> one rendering alone, then two renderings whose events are consumed in turns
+    returns the list of canonical outcomes, in that order"""
+    from genshi.core import Stream
+    try:
+        tmpl, data = _make_template(case)
+    except Exception as e:  # noqa
+        return [['err', type(e).__name__]]
+    outs = []
+
+    def one():
+        try:
+            return _finish(tmpl.generate(**data()), method)
+        except Exception as e:  # noqa
+            return ['err', type(e).__name__]
+    outs.append(one())
+    if mode == 'twice':
+        outs.append(one())
+        outs.append(one())
+        return outs
+    try:
+        s1, s2 = iter(tmpl.generate(**data())), iter(tmpl.generate(**data()))
+        o1, o2 = [], []
+        d1 = d2 = False
+        while not (d1 and d2):
+            if not d1:
+                try:
+                    o1.append(next(s1))
+                except StopIteration:
+                    d1 = True
+            if not d2:
+                try:
+                    o2.append(next(s2))
+                except StopIteration:
+                    d2 = True
+        outs.append(_finish(Stream(o1), method))
+        outs.append(_finish(Stream(o2), method))
+    except Exception as e:  # noqa
+        outs.append(['err', type(e).__name__])
+    return outs
 
 
 # --------------------------------------------------------------------------
@@ -282,6 +338,27 @@ def rand_path(rng, names, pos_ok=False, kinds=('single', 'simple', 'generic')):
             p += '[%d]' % rng.randrange(1, 3)
         return p
     return nm()
+
+
+def rand_path_first_pos(rng, names):
+    """a multi-step match path with a positional predicate on its FIRST step (`a[2]/b`, `*[1]//b`,
+    `a[1]/descendant::b`): served by GenericStrategy, the counter of the first step lives in the root
+    frame of the matcher's stack"""
+    nm = lambda: rng.choice(names)
+    first = (nm() if rng.random() < 0.8 else '*') + '[%d]' % rng.choice([1, 1, 2, 2, 3])
+    parts = [first]
+    for _ in range(rng.choice([1, 1, 2])):
+        parts.append(rng.choice(['/', '/', '//', '/descendant::']) + (nm() if rng.random() < 0.8 else '*'))
+    p = ''.join(parts)
+    if rng.random() < 0.15:
+        p += '[%d]' % rng.choice([1, 2])
+    return p
+
+
+def first_step_positional(p):
+    """multi-step path whose first step carries a positional predicate"""
+    st = parse_path(p)
+    return len(st) > 1 and st[0][2] is not None
 
 
 def rand_body(rng, shape=None, maxsel=2):
